@@ -31,7 +31,7 @@ type built struct {
 	finish func() int
 	// expectTags (optional): sample tag -> number of samples the run must have left
 	expectTags func() map[string]int
-	text   string // the ammo / scenario file, for messages
+	text       string // the ammo / scenario file, for messages
 	// strict: no request failed at the transport level, so the counts must be exact (set before finish)
 	strict bool
 }
@@ -98,7 +98,9 @@ func think(c Case) {
 
 // ---------------- http ----------------
 
-func entryBody(i int) []byte { return []byte(fmt.Sprintf("body-of-entry-%d-%s", i, strings.Repeat("x", i%5))) }
+func entryBody(i int) []byte {
+	return []byte(fmt.Sprintf("body-of-entry-%d-%s", i, strings.Repeat("x", i%5)))
+}
 
 func buildHTTP(c Case, b *built, viol *violations) (gun, ammo map[string]any, err error) {
 	p := c.Plain
